@@ -52,6 +52,8 @@ class Prog:
         self.rng, self.k, self.lines = rng, 0, []
         self.fptosi_type, self.negf_type = fptosi_type, negf_type
         self.uses = set()
+        self.permute = rng.random() < 0.12
+        self.casts = set()
 
     def fresh(self):
         self.k += 1
@@ -136,6 +138,7 @@ class Prog:
                     a = self.pick(env, "index", ind)
                     self.emit(ind, f"{v} = arith.index_cast {a} : index to i32")
                     env.append((v, "i32"))
+                self.casts.add(v)
                 self.uses.add("index_cast")
             elif depth < 2:
                 lb, ub, st = self.fresh(), self.fresh(), self.fresh()
@@ -155,7 +158,25 @@ class Prog:
                 self.emit(ind, f"{heads} = scf.for {iv} = {lb} to {ub} step {st} iter_args({ia}) -> ({tys}) {{")
                 e2 = list(env) + [(iv, "index")] + [(a, t) for a, t, _ in its]
                 self.body(e2, ind + "  ", depth + 1, rng.choice([1, 2, 4]))
-                ys = [self.pick(e2, t, ind + "  ") for _, t, _ in its]
+                ys = []
+                outer = {v_ for v_, _ in env}
+                for pos, (own, t, _) in enumerate(its):
+                    others = {a for a, _, _ in its if a != own}
+                    # "shared" yield operands - another carried value (permutation), a value that is also
+                    # yielded to another position, or a value defined outside the loop - hit a known allocator
+                    # defect; they are only generated in dedicated programs (self.permute), elsewhere every
+                    # yield operand is exclusive to its position and defined inside the body
+                    if self.permute:
+                        e3 = e2
+                    else:
+                        e3 = [(v_, t_) for v_, t_ in e2
+                              if v_ not in others and v_ not in outer and v_ not in ys and v_ not in self.casts]
+                    y = self.pick(e3, t, ind + "  ")
+                    # (index_cast lowers to nothing, so its result aliases its operand - possibly the
+                    # induction variable, another carried value or an outer value)
+                    if y in others or y in outer or y in ys or y in self.casts:
+                        self.uses.add("scf.for:yield-operand-shared")
+                    ys.append(y)
                 self.emit(ind + "  ", f"scf.yield {', '.join(ys)} : {tys}")
                 self.emit(ind, "}")
                 env.extend((rv, t) for rv, (_, t, _) in zip(res, its))
@@ -305,7 +326,12 @@ def run_part1(job, res):
             if problem is None:
                 continue
             key = problem[0]
-            if key == "wrong-result":
+            if key == "wrong-result" and "scf.for:yield-operand-shared" in prog.uses:
+                # structural precondition of the known riscv_scf.for allocation defect: the yield routes one
+                # carried value into another carried position, and the allocator puts block argument, init,
+                # yield operand and result of each position into ONE register (two live values share it)
+                key = "known-structural:riscv_scf.for-yield-operand-shared"
+            elif key == "wrong-result":
                 cands = [(kk, rep, ()) for kk, rep in repair_known(asm, prog).items()]
                 if any(u.startswith(("minimumf", "maximumf")) for u in prog.uses):
                     q = ("fminmax-propagate-nan",)
